@@ -351,6 +351,24 @@ pub fn containers(seq: &J) -> J {
                 return m;
             }
         }
+        // nesting is transitive: a set nested in the nested one (and one nested in that) sees exactly what the nested one
+        // sees - its own bindings first, then the outer ones - for every name either of them has ever held
+        let mut names: Vec<String> = inner.iter().map(|(k, _)| k.as_str().to_string()).collect();
+        names.extend(outer.iter().map(|(k, _)| k.as_str().to_string()));
+        names.push("never-bound".to_string());
+        let level2 = Variables::nested(&inner);
+        let mut level3 = Variables::nested(&level2);
+        let _ = level3.add(Identifier::from("own-of-level3"), Value::Integer(3));
+        for name in names {
+            let id = Identifier::from(name.as_str());
+            let want = inner.get(&id).map(value_plain);
+            for (what, got) in [("twice", level2.get(&id).map(value_plain)), ("three times", level3.get(&id).map(value_plain))] {
+                if got != want {
+                    return json!({"step": hist.len(), "op": "nested-deep", "detail": format!("a set nested {} sees another value for {} than the nested set", what, name),
+                                  "got": got, "expected": want});
+                }
+            }
+        }
     }
     if sorted_vars(&outer) != outer_before {
         return json!({"step": hist.len(), "op": "nested", "detail": "the outer variable set changed through the nested one"});
